@@ -269,6 +269,11 @@ def check(prop, tier):
             for f, r in parallel(one, files, n=NCPU):
                 v.cov["transitions"] += r.generated
                 v.cov["states"] += r.distinct
+                dl = re.findall(r'<<"DRIFT", (\d+), "([^"]*)">>', r.out)
+                if dl:
+                    v.cov["model_drift"] = True
+                    v.cov.setdefault("drift_events", []).extend({"file": os.path.basename(f), "line": int(a), "why": b} for a, b in dl[:3])
+                    log(f"model drift (not an alarm): {len(dl)} scenarios in {os.path.basename(f)}: {dl[0][1]}")
                 if r.ok:
                     nscen += max(0, r.distinct - 1)
                     continue
@@ -328,7 +333,9 @@ CHECK_DEADLOCK FALSE
         v.cov["rule"] = {
             "kv": "every request sequence of the bounded instance generated by TLC (Gen_Kv) plus random longer sequences with values up to 20 kB, each "
                   "under: one request at a time, all pipelined in one segment, one byte per segment (the server's read is awaited between segments), "
-                  "cuts at fixed and random positions incl. between the final CR and LF; received BYTES compared with Resp!Encode of the map model",
+                  "cuts at fixed and random positions incl. between the final CR and LF (also with the client waiting for the replies to the complete "
+                  "requests before sending the rest); received BYTES compared with Resp!Encode of the map model; the same requests also through the "
+                  "repository's own net::Client (differences there are client drift, no listed property covers the client)",
             "hostile": "every byte string up to the bound printed by TLC from MC_RespBytes, 30 command-level malformations (arity, verbs, non-UTF-8, "
                        "nested/empty/negative arrays, truncations, a DEL naming a stored key before a bad argument), nesting up to 10^6, absurd lengths; "
                        "a control connection stores and reads values before/after each, a fresh connection must be served, the store is read back",
